@@ -223,3 +223,85 @@ func vxH13SrvSession(msize int, clientDotu bool, nreq int, ncuts int) {
 	}
 	vxReach("done")
 }
+
+// H13.srv-edge: the receive buffer (8 x msize) is consumed from the front and replaced when too little of it is
+// left. The stream is laid out so that a message boundary falls exactly k bytes (k = 0..4, a partial size prefix)
+// before the end of that buffer, and the whole stream arrives in one transport segment, so that the read fills the
+// buffer to its last byte. Everything is executed and answered, as when the same stream arrives message by message.
+func vxH13SrvEdge(msize int) {
+	k := vxChoose("bytes-left-at-the-boundary", 5)
+	// bytes of the buffer used by the prologue of vxRunStream (Tversion, Tattach, Topen)
+	used := len(refEncode(Tversion, NOTAG, []refItem{refU32(uint32(msize)), refS("9P2000.u")}, true)) +
+		len(refEncode(Tattach, 1, []refItem{refU32(0), refU32(NOFID), refS("u0"), refS(""), refU32(0)}, true)) +
+		len(refEncode(Topen, 1, []refItem{refU32(0), refU8(ORDWR)}, true))
+	R := 8*msize - used - k
+	var stream []byte
+	var bounds []int
+	n := 0
+	add := func(size int) {
+		tag := uint16(30 + n)
+		n++
+		if size == 11 {
+			stream = append(stream, refEncode(Tstat, tag, []refItem{refU32(0)}, true)...)
+		} else {
+			pl := make([]byte, size-23)
+			for i := range pl {
+				pl[i] = byte(n + i)
+			}
+			stream = append(stream, refEncode(Twrite, tag, []refItem{refU32(0), refU64(uint64(n)), {kind: rkData, cnt: uint32(len(pl)), b: pl}}, true)...)
+		}
+		bounds = append(bounds, len(stream))
+	}
+	// frame sizes available: 11 (Tstat) and 23..msize-1 (Twrite with 0..msize-24 payload bytes)
+	big := msize - 1
+	for R >= big+3*23 {
+		add(big)
+		R -= big
+	}
+	var pick func(r int, depth int) []int
+	pick = func(r int, depth int) []int {
+		if r == 11 || (r >= 23 && r <= big) {
+			return []int{r}
+		}
+		if depth == 0 {
+			return nil
+		}
+		for _, s := range []int{big, 23, 11, 30} {
+			if s < r {
+				if rest := pick(r-s, depth-1); rest != nil {
+					return append([]int{s}, rest...)
+				}
+			}
+		}
+		return nil
+	}
+	sizes := pick(R, 5)
+	vxAssert(sizes != nil, "harness-layout")
+	for _, s := range sizes {
+		add(s)
+	}
+	vxAssert(len(stream) == 8*msize-used-k, "harness-boundary-where-intended")
+	add(11)
+	add(big)
+	add(11)
+	ref, refWire, refAlive := vxRunStream(msize, stream, bounds)
+	got, gotWire, gotAlive := vxRunStream(msize, stream, nil)
+	vxAssert(refAlive && len(ref) == n, "message-by-message-delivery-executes-every-request")
+	vxAssert(gotAlive, "connection-survives-valid-stream")
+	vxAssert(len(got) == n, "one-segment-delivery-executes-every-request")
+	rf, ok1 := vxFrames(refWire)
+	gf, ok2 := vxFrames(gotWire)
+	vxAssert(ok1 && ok2 && len(rf) == n && len(gf) == n, "every-request-answered")
+	if ok1 && ok2 && len(rf) == len(gf) {
+		for _, a := range rf {
+			match := false
+			for _, b := range gf {
+				if a.tag == b.tag {
+					match = refBytesEq(a.raw, b.raw)
+				}
+			}
+			vxAssert(match, "same-replies")
+		}
+	}
+	vxReach("done")
+}
